@@ -441,9 +441,10 @@ def manager_op_anomalies(r, env):
                 got = []
                 while j < len(seq) and not seq[j].startswith("enter:"):
                     got.append(seq[j]); j += 1
-                want = exp["fsd_kill"] if tok.endswith(":1") else exp["fsd_plain"]
-                if got != want:
-                    out.append(("flag_executor_shutting_down", got, want))
+                # kill_workers can be switched on by a user thread between the entry and the test: both lists are legitimate,
+                # but a list with the flag seen set at the entry must be the killing one
+                if got not in (exp["fsd_kill"], exp["fsd_plain"]) or (tok.endswith(":1") and got != exp["fsd_kill"]):
+                    out.append(("flag_executor_shutting_down", got, exp["fsd_kill"] if tok.endswith(":1") else exp["fsd_plain"]))
                 i = j
                 continue
             if tok == "enter:join_executor_internals":
